@@ -20,25 +20,25 @@ import (
 const VerifDir = "/verif"
 
 type PropConfig struct {
-	ID        string   `json:"id"`
-	Packages  []string `json:"packages"`
-	Functions []string `json:"functions,omitempty"` // optional explicit list; default: all contracts in zz_verif_<id>.go files
-	Inline    []string `json:"inline,omitempty"`
-	NoInline  []string `json:"noinline,omitempty"`
-	MaxPaths  int      `json:"max_paths,omitempty"`
-	AutoInlineMax int  `json:"auto_inline_max,omitempty"`
-	Scans     []ScanSpec `json:"scans,omitempty"`
-	Assumptions []string `json:"assumptions,omitempty"`
-	NotDecided  []string `json:"not_decided,omitempty"`
-	Bounded   []BoundedSpec `json:"bounded,omitempty"`
+	ID            string        `json:"id"`
+	Packages      []string      `json:"packages"`
+	Functions     []string      `json:"functions,omitempty"` // optional explicit list; default: all contracts in zz_verif_<id>.go files
+	Inline        []string      `json:"inline,omitempty"`
+	NoInline      []string      `json:"noinline,omitempty"`
+	MaxPaths      int           `json:"max_paths,omitempty"`
+	AutoInlineMax int           `json:"auto_inline_max,omitempty"`
+	Scans         []ScanSpec    `json:"scans,omitempty"`
+	Assumptions   []string      `json:"assumptions,omitempty"`
+	NotDecided    []string      `json:"not_decided,omitempty"`
+	Bounded       []BoundedSpec `json:"bounded,omitempty"`
 }
 
 type BoundedSpec struct {
 	Name  string `json:"name"`
-	Pkg   string `json:"pkg"`   // package dir relative to repo
-	File  string `json:"file"`  // test source under /verif/bounded
-	Run   string `json:"run"`   // -run pattern
-	Bound string `json:"bound"` // human-readable bound
+	Pkg   string `json:"pkg"`            // package dir relative to repo
+	File  string `json:"file"`           // test source under /verif/bounded
+	Run   string `json:"run"`            // -run pattern
+	Bound string `json:"bound"`          // human-readable bound
 	Tier  string `json:"tier,omitempty"` // "thorough" = only in thorough tier
 }
 
@@ -422,24 +422,24 @@ func runCheck(id, tier string, seed int, propose, verbose bool) int {
 		expl = "violations reported; see replays"
 	}
 	cov := map[string]any{
-		"obligations":       len(ledger),
-		"discharged":        discharged,
-		"checker_cmd":       fmt.Sprintf("/verif/bin/gvc check %s --tier %s", id, tier),
-		"trusted_base":      tb,
-		"samples":           samples,
+		"obligations":              len(ledger),
+		"discharged":               discharged,
+		"checker_cmd":              fmt.Sprintf("/verif/bin/gvc check %s --tier %s", id, tier),
+		"trusted_base":             tb,
+		"samples":                  samples,
 		"functions_under_contract": funcs,
-		"functions_inlined": sortedKeys(inlined),
-		"backends":          backends,
-		"solver_ms":         solveMs,
-		"explore_ms":        exploreMs,
-		"load_s":            loadSecs,
-		"generated_obligations": len(all),
-		"undecided_new":     undecidedNew,
-		"unsupported":       unsupported,
-		"known_findings":    known,
-		"bounded":           boundedNotes,
-		"not_decided":       cfg.NotDecided,
-		"contract_files":    relFiles(P.ContractFiles),
+		"functions_inlined":        sortedKeys(inlined),
+		"backends":                 backends,
+		"solver_ms":                solveMs,
+		"explore_ms":               exploreMs,
+		"load_s":                   loadSecs,
+		"generated_obligations":    len(all),
+		"undecided_new":            undecidedNew,
+		"unsupported":              unsupported,
+		"known_findings":           known,
+		"bounded":                  boundedNotes,
+		"not_decided":              cfg.NotDecided,
+		"contract_files":           relFiles(P.ContractFiles),
 	}
 	if expl != "" {
 		cov["explanation"] = expl
